@@ -10,6 +10,10 @@
 (* (T-layer: recorded runs of the real code) evaluate the SAME operators on their logs.                      *)
 (*                                                                                                         *)
 (* A path is a sequence of naturals (interned components of the absolute path); UP = 0 stands for "..".     *)
+(* The specification talks about PHYSICAL files: the recorder resolves symbolic links of the directory part *)
+(* the way the OS walks the path BEFORE any ".." is collapsed (lnk/../out with lnk -> deep/inner is deep/out),*)
+(* for steps, returned paths, printed lists and snapshot differences alike; Norm therefore only ever meets a  *)
+(* ".." that no symbolic link precedes (the bounded model, corrupted self-test records) or none at all.       *)
 (* A step is [k, p, q, m, ex, om, pe, tmp]:                                                                  *)
 (*   k  "mkdir" | "open" | "copy" | "chmod" | "remove" | "rmdir" | "rename" | "spawn"                        *)
 (*   p  path (spawn: the file handed to the program); q  rename target (<<>> otherwise)                     *)
